@@ -117,6 +117,8 @@ type chainStep struct {
 
 func checkC14(c *Ctx) {
 	r := c.R
+	r.Rule("R02.1", "(shared with C02) every record written carries its caller: one emission per call, on the path that runs the caller printer (no second emission from a deferred recovery that bypasses it)")
+	r.Rule("R02.3", "(shared with C02) the payload is the finished buffer of the regular path")
 	r.Rule("R10.1", "(shared with C10) a logger's skip count is written only by its own SetSkip/WithSkip: no function stores a setting of one logger into another (SetDefault included)")
 	r.Rule("R10.3", "(shared with C10) a new logger starts with skip count 0: newentry copies from the parent only the documented settings (nothing-else rule)")
 	r.Rule("R18.2", "(shared with C18) the file reported is the frame's file, hardened: the shorter-equivalent step computes the path of the FILE relative to the working directory (arguments of filepath.Rel in that order)")
@@ -145,6 +147,8 @@ func checkC14(c *Ctx) {
 		c14Flow(c, p, m)
 		c14FuncName(c, p)
 		c14NoInterfaceReentry(c, p, m)
+		c02Counts(c, p, m)
+		c02Newline(c, p, m)
 		var slogFns []*ssa.Function
 		for _, fn := range p.RepoFuncs() {
 			if fn.Pkg == p.Slog {
